@@ -525,6 +525,28 @@ pub fn tier_cases(prop: &Property, tier: Tier) -> (Vec<Case>, usize) {
     (v, own)
 }
 
+/// The order in which a tier's own cases are dealt to the workers. Thorough: a seeded shuffle.
+/// Quick: from both ends of the list towards its middle (last, first, last but one, second, ...):
+/// a quick run is meant to finish, but when a loaded machine makes it hit its wall budget the
+/// cases it loses are then the ones in the middle of the bulk families - not the small special
+/// scenes, which the generators append at the end (a capped run says what it skipped either way).
+fn deal_order(n: usize, seed: u64, tier: Tier) -> Vec<usize> {
+    if tier == Tier::Thorough || seed != 0 {
+        return shuffle_indices(n, seed);
+    }
+    let mut v = Vec::with_capacity(n);
+    let (mut lo, mut hi) = (0usize, n);
+    while lo < hi {
+        hi -= 1;
+        v.push(hi);
+        if lo < hi {
+            v.push(lo);
+            lo += 1;
+        }
+    }
+    v
+}
+
 pub fn check_main(prop: &Property, tier: Tier) -> i32 {
     let t0 = Instant::now();
     let seed: u64 = std::env::var("VERIF_SEED").ok().and_then(|s| s.parse().ok()).unwrap_or(0);
@@ -532,7 +554,7 @@ pub fn check_main(prop: &Property, tier: Tier) -> i32 {
         .ok()
         .and_then(|s| s.parse().ok())
         .unwrap_or(match tier {
-            Tier::Quick => 45,
+            Tier::Quick => 55,
             Tier::Thorough => 1200,
         });
     let nworkers: usize = std::env::var("VERIF_WORKERS")
@@ -546,7 +568,7 @@ pub fn check_main(prop: &Property, tier: Tier) -> i32 {
     drop(cases);
     let deal_seed = if seed == 0 && tier == Tier::Thorough { 0x5eed } else { seed };
     let queue: Arc<Mutex<std::collections::VecDeque<String>>> =
-        Arc::new(Mutex::new((own_cases..ncases).chain(shuffle_indices(own_cases, deal_seed)).map(|i| i.to_string()).collect()));
+        Arc::new(Mutex::new((own_cases..ncases).chain(deal_order(own_cases, deal_seed, tier)).map(|i| i.to_string()).collect()));
     let in_flight = Arc::new(AtomicUsize::new(0));
     const PARTS: u32 = 32;
     const SPLIT_DEPTH: usize = 6;
